@@ -6,6 +6,8 @@ and of every selected string literal is in the document handed to the validator,
 one anywhere makes the run fail.
 -/
 import Genq.Model.Files
+import Genq.Model.ConvSkel
+import Genq.Extracted.Conv
 namespace Genq.Files
 
 /-- hypothesis on the third-party validator: it accepts a document only if every definition
@@ -75,3 +77,10 @@ example : merged [({ name := ['a'], kind := .graphql, defs := [1, 2], lits := []
   decide
 
 end Genq.Files
+
+namespace Genq
+
+/-- **C05_parse_tie** — getAndValidateQueries / getQueries / getQueriesFromString / getQueriesFromGo, as in /repo now (regenerated on every run), equal to the copy the model was written from -/
+theorem C05_parse_tie : Extracted.parseSkeleton = ConvSkel.parseSkeleton := rfl
+
+end Genq
